@@ -3,6 +3,7 @@ package rules
 import (
 	"go/token"
 	"go/types"
+	"strings"
 
 	"golang.org/x/tools/go/ssa"
 
@@ -75,9 +76,13 @@ func evalBytesAt(fn *ssa.Function, at ssa.CallInstruction, arg ssa.Value) ([]int
 			a.b[i] = -1
 		}
 	}
+	ints := map[ssa.Value]int{} // len/cap of tracked slices
 	constInt := func(v ssa.Value, def int) (int, bool) {
 		if v == nil {
 			return def, true
+		}
+		if k, ok := ints[v]; ok {
+			return k, true
 		}
 		k, ok := ana.ConstInt(v)
 		return int(k), ok
@@ -228,7 +233,50 @@ func evalBytesAt(fn *ssa.Function, at ssa.CallInstruction, arg ssa.Value) ([]int
 					for i := 0; i < w; i++ {
 						s.arr.b[s.off+i] = (k >> (8 * uint(w-1-i))) & 0xff
 					}
-				case name == "builtin.len" || name == "builtin.cap" || name == "(*crypto/tls.ConnectionState).ExportKeyingMaterial":
+				case strings.HasPrefix(name, "(encoding/binary.bigEndian).AppendUint"):
+					// append(b, big-endian bytes of a constant): same aliasing rule as append
+					args := cc.Args
+					if len(args) == 3 {
+						args = args[1:]
+					}
+					v, isVal := x.(ssa.Value)
+					if len(args) != 2 || !isVal {
+						break
+					}
+					s, ok := slices[args[0]]
+					if !ok {
+						break
+					}
+					w := map[string]int{"6": 2, "2": 4, "4": 8}[name[len(name)-1:]]
+					k, isK := ana.ConstInt(args[1])
+					if !isK || w == 0 || !s.capKnown {
+						forget(s.arr)
+						break
+					}
+					bs := make([]int64, w)
+					for i := 0; i < w; i++ {
+						bs[i] = (k >> (8 * uint(w-1-i))) & 0xff
+					}
+					if s.len+w <= s.cap {
+						copy(s.arr.b[s.off+s.len:], bs)
+						slices[v] = &byteSlice{arr: s.arr, off: s.off, len: s.len + w, cap: s.cap, capKnown: true}
+					} else {
+						na := &byteArr{b: make([]int64, s.len+w)}
+						copy(na.b, s.arr.b[s.off:s.off+s.len])
+						copy(na.b[s.len:], bs)
+						slices[v] = &byteSlice{arr: na, off: 0, len: s.len + w, cap: s.len + w, capKnown: false}
+					}
+				case name == "builtin.len" || name == "builtin.cap":
+					if v, isVal := x.(ssa.Value); isVal && len(cc.Args) == 1 {
+						if s, ok := slices[cc.Args[0]]; ok {
+							if name == "builtin.len" {
+								ints[v] = s.len
+							} else if s.capKnown {
+								ints[v] = s.cap
+							}
+						}
+					}
+				case name == "(*crypto/tls.ConnectionState).ExportKeyingMaterial":
 					// read-only users of a buffer
 				default:
 					// an unknown callee that receives a tracked buffer may write it
